@@ -84,6 +84,9 @@ def configs(tier, seed):
         if n <= 3:
             out.append({"name": f"combined-{name}", "kind": "kmatrix", "n": n, "entries": entries, "order": list(range(n)),
                         "j": "sym", "split": True})
+            # same model objects evaluated again after the rate parameters changed in place (as the optimiser does)
+            out.append({"name": f"reevaluated-{name}", "kind": "kmatrix", "n": n, "entries": entries, "order": list(range(n)),
+                        "j": "sym", "reevaluate": True})
     for mc in ("decay-sequential", "decay-parallel"):
         for n in (2, 3) + ((4,) if tier == "thorough" else ()):
             out.append({"name": f"{mc}-{n}", "kind": "builtin", "mc": mc, "n": n})
@@ -307,6 +310,16 @@ def _run_one(cfg, rec):
                     ctx.assume(z3.Sum([jvals[i].e for i in cfg["order"][:-1]]) > 0)
             dm = _dataset_model(cfg, names, jvals, exclude)
             mc = DecayMegacomplex(label="mc", k_matrix=kms)
+            knames = {}
+            if cfg.get("reevaluate"):
+                mc.calculate_matrix(dm, np.array([0.0]), times)
+                mc.get_a_matrix(dm)
+                for k_ in kms:  # new values on the same Parameter objects
+                    for (to, fr), par in k_.matrix.items():
+                        nm = f"k_{to[1:]}_{fr[1:]}"
+                        knames[nm] = z3.Real("re" + nm)
+                        par.value = SymReal(knames[nm])
+                        ctx.assume(knames[nm] > 0)
             labels, matrix = mc.calculate_matrix(dm, np.array([0.0]), times)
             comps = mc.get_compartments(dm)
             A = mc.get_a_matrix(dm)
@@ -317,7 +330,7 @@ def _run_one(cfg, rec):
             tot = sum((zreal(jvals[i]) for i in incl[1:]), zreal(jvals[incl[0]]))
             jspec = {i: (zreal(jvals[i]) / tot if i in incl else zreal(jvals[i])) for i in range(n)}
             involved = [i for i in cfg["order"] if any(i in e for e in cfg["entries"])]
-            return {"labels": labels, "matrix": matrix, "names": names, "K": spec_K(cfg, lambda nm: z3.Real(nm)),
+            return {"labels": labels, "matrix": matrix, "names": names, "K": spec_K(cfg, lambda nm: knames.get(nm, z3.Real(nm))),
                     "j": [jspec[i] for i in range(n)], "A": A, "rates": r, "times": times,
                     "contract": eig.contract() + solve.contract(), "species_order": involved, "comps": comps}
 
@@ -422,6 +435,12 @@ def _float_case(cfg, env):
                 exclude = [names[cfg["order"][-1]]] if cfg["j"] == "excl" else []
             dm = _dataset_model(cfg, names, jv, exclude)
             mc = DecayMegacomplex(label="mc", k_matrix=kms)
+            if cfg.get("reevaluate"):
+                mc.calculate_matrix(dm, np.array([0.0]), times)
+                for k_ in kms:
+                    for (to, fr), par in k_.matrix.items():
+                        env[f"k_{to[1:]}_{fr[1:]}"] = float(rng.uniform(0.3, 2.5))
+                        par.value = env[f"k_{to[1:]}_{fr[1:]}"]
             labels, matrix = mc.calculate_matrix(dm, np.array([0.0]), times)
             K = np.array(spec_K(cfg, val), dtype=float)
             incl = [i for i in cfg["order"] if names[i] not in exclude]
